@@ -64,7 +64,8 @@ def run(chk):
                 infos.append(i)
         drift_total += len(drifts)
         for d in drifts[:5]:
-            print('MODEL-DRIFT (not a violation): ConnTick and the code disagree at step %(step)s (%(action)s) on %(var)s' % d, d)
+            print('MODEL-DRIFT (not a violation): ConnTick and the code disagree at step %(step)s (%(action)s) on %(var)s' % d, d,
+                  scen, ' '.join(infos[d['id'] - 1]['schedule']), 'unit', infos[d['id'] - 1]['U'])
         rej = cc.validate(chk, traces, 'TraceConn %s N=%d CAP=%d OWN=%d' % (scen, N, CAP, OWN))
         for tid, idx, clause in rej:
             if clause.startswith('machinery'):
